@@ -139,24 +139,121 @@ func mustPath(tok string) path.Path {
 // ---------------------------------------------------------------- in-memory routing.ValueStore
 
 type memStore struct {
-	mu      sync.Mutex
-	m       map[string][]byte
-	failPut bool
-	puts    int
+	mu         sync.Mutex
+	m          map[string][]byte
+	failPut    bool
+	puts       int
+	validating bool                     // keep the record with the higher sequence number (like a validating store)
+	hold       map[string]chan struct{} // concurrent-publish ops: the put of publish "A"/"B" waits for this channel
 }
 
 var errPut = errors.New("injected put failure")
 
-func (s *memStore) PutValue(_ context.Context, k string, v []byte, _ ...routing.Option) error {
+type whoKey struct{}
+
+func whoOf(ctx context.Context) string {
+	w, _ := ctx.Value(whoKey{}).(string)
+	return w
+}
+
+func recSeq(raw []byte) (uint64, bool) {
+	rec, err := ipns.UnmarshalRecord(raw)
+	if err != nil {
+		return 0, false
+	}
+	s, err := rec.Sequence()
+	return s, err == nil
+}
+
+func (s *memStore) PutValue(ctx context.Context, k string, v []byte, _ ...routing.Option) error {
+	s.mu.Lock()
+	ch := s.hold[whoOf(ctx)]
+	s.mu.Unlock()
+	if ch != nil {
+		<-ch
+	}
 	s.mu.Lock()
 	defer s.mu.Unlock()
 	if s.failPut {
 		s.failPut = false
 		return errPut
 	}
+	if old, ok := s.m[k]; ok && s.validating {
+		if o, ok1 := recSeq(old); ok1 {
+			if n, ok2 := recSeq(v); ok2 && n < o {
+				return nil
+			}
+		}
+	}
 	s.m[k] = append([]byte(nil), v...)
 	s.puts++
 	return nil
+}
+
+// rvDS wraps the publisher's datastore. While armed (one concurrent-publish op) the Get of publish
+// "A" signals its arrival and then waits up to `patience` for the Get of publish "B": a publisher
+// that serialises read+write never lets B read while A is between its read and its write, so A just
+// times out; one that reads outside its critical section lets both read the same record. Puts are
+// logged (who, bytes): the true order of the writes.
+type rvDS struct {
+	ds.Datastore
+	mu       sync.Mutex
+	armed    bool
+	aArrived chan struct{}
+	bArrived chan struct{}
+	log      []dsWrite
+}
+
+type dsWrite struct {
+	who string
+	raw []byte
+}
+
+const patience = 150 * time.Millisecond
+
+func (d *rvDS) arm() {
+	d.mu.Lock()
+	defer d.mu.Unlock()
+	d.armed, d.aArrived, d.bArrived, d.log = true, make(chan struct{}), make(chan struct{}), nil
+}
+
+func (d *rvDS) disarm() { d.mu.Lock(); d.armed = false; d.mu.Unlock() }
+
+func (d *rvDS) Get(ctx context.Context, k ds.Key) ([]byte, error) {
+	val, err := d.Datastore.Get(ctx, k)
+	d.mu.Lock()
+	armed, a, b := d.armed, d.aArrived, d.bArrived
+	d.mu.Unlock()
+	if armed {
+		switch whoOf(ctx) {
+		case "A":
+			select {
+			case <-a:
+			default:
+				close(a)
+			}
+			select {
+			case <-b:
+			case <-time.After(patience):
+			}
+		case "B":
+			select {
+			case <-b:
+			default:
+				close(b)
+			}
+		}
+	}
+	return val, err
+}
+
+func (d *rvDS) Put(ctx context.Context, k ds.Key, v []byte) error {
+	d.mu.Lock()
+	if d.armed {
+		d.log = append(d.log, dsWrite{whoOf(ctx), append([]byte(nil), v...)})
+	}
+	d.mu.Unlock()
+	return d.Datastore.Put(ctx, k, v)
 }
 
 func (s *memStore) GetValue(_ context.Context, k string, _ ...routing.Option) ([]byte, error) {
@@ -221,7 +318,14 @@ func gen(r *vh.Rand, tier string, n int, emit func(vh.Case)) {
 		c := vh.Case{ID: strconv.Itoa(i)}
 		cache := vh.Pick(cr, []int{0, 0, 1, 2, 3, 8, 8})
 		maxttl := vh.Pick(cr, []string{"-", "-", "-", "0", "-1", "1", "3", "10"})
-		c.Ops = append(c.Ops, fmt.Sprintf("ns %d %s", cache, maxttl))
+		// a routing store that keeps the record with the higher sequence number (what a validating
+		// store does); only with cache sizes that never evict, and without foreign writes
+		vstore := (cache == 0 || cache == 8) && cr.Chance(1, 4)
+		if vstore {
+			c.Ops = append(c.Ops, fmt.Sprintf("ns %d %s v", cache, maxttl))
+		} else {
+			c.Ops = append(c.Ops, fmt.Sprintf("ns %d %s", cache, maxttl))
+		}
 		nk := 2 + cr.Intn(nKeys-1)
 		nops := 8 + cr.Intn(25)
 		if tier == "thorough" {
@@ -275,8 +379,41 @@ func gen(r *vh.Rand, tier string, n int, emit func(vh.Case)) {
 			nk = nKeys
 			nops /= 2
 		}
+		if vstore {
+			external = false
+		}
+		// at most one pair of concurrent publishes per case (each costs the rendezvous patience)
+		concAt := -1
+		if cr.Chance(1, 14) {
+			concAt = cr.Intn(nops)
+		}
 		lastPub := -1
 		for j := 0; j < nops; j++ {
+			if j == concAt {
+				key := cr.Intn(nk)
+				a, b := genTarget(cr, nk), genTarget(cr, nk)
+				for b == a {
+					b = genTarget(cr, nk)
+				}
+				sa, sb := "-", "-"
+				switch cr.Intn(6) {
+				case 0: // the same explicit sequence twice
+					sa = strconv.Itoa(1 + cr.Intn(8))
+					sb = sa
+				case 1:
+					sa, sb = strconv.Itoa(1+cr.Intn(8)), strconv.Itoa(1+cr.Intn(8))
+				case 2:
+					sa = strconv.Itoa(1 + cr.Intn(8))
+				}
+				mode := "seq"
+				if vstore && cr.Chance(1, 3) {
+					mode = "late"
+				}
+				c.Ops = append(c.Ops, fmt.Sprintf("cpublish %d %s %s %s %s %s %s %s", key, a, vh.Pick(cr, pubTTLs), sa, b, vh.Pick(cr, pubTTLs), sb, mode))
+				c.Ops = append(c.Ops, fmt.Sprintf("resolve N%d.%d 1", key, cr.Intn(3)))
+				lastPub = key
+				continue
+			}
 			k := cr.Intn(100)
 			if small && k >= 38 && k < 44 {
 				k = 50
@@ -346,6 +483,7 @@ type truth struct { // what the monitor knows: latest value per name / domain an
 	haveSeq  map[int]bool
 	lastVal  map[int]string
 	external bool
+	concLoser map[int]string // value of the concurrent publish that lost the serialisation
 	cap      time.Duration // positive WithMaxCacheTTL: also caps reported TTLs
 }
 
@@ -353,12 +491,12 @@ func exec(c vh.Case, o *vh.Out) {
 	ctx := context.Background()
 	var ns namesys.NameSystem
 	var store *memStore
-	var dstore ds.Datastore
+	var dstore *rvDS
 	cacheSize := 0
 	dnsMap := map[string]dnsEntry{}
 	var dnsMu sync.Mutex
 	tr := truth{val: map[int]string{}, ttl: map[int]time.Duration{}, byNS: map[int]bool{}, dns: map[int]dnsEntry{}, dnsTok: map[int]string{},
-		lastSeq: map[int]uint64{}, haveSeq: map[int]bool{}, lastVal: map[int]string{}}
+		lastSeq: map[int]uint64{}, haveSeq: map[int]bool{}, lastVal: map[int]string{}, concLoser: map[int]string{}}
 	lookup := func(_ context.Context, name string) ([]string, time.Duration, error) {
 		dnsMu.Lock()
 		defer dnsMu.Unlock()
@@ -394,7 +532,11 @@ func exec(c vh.Case, o *vh.Out) {
 		switch f[0] {
 		case "ns":
 			store = &memStore{m: map[string][]byte{}}
-			dstore = dssync.MutexWrap(ds.NewMapDatastore())
+			dstore = &rvDS{Datastore: dssync.MutexWrap(ds.NewMapDatastore())}
+			if len(f) > 3 && f[3] == "v" {
+				store.validating = true
+				o.Kind("validating-store")
+			}
 			opts := []namesys.Option{namesys.WithDatastore(dstore), namesys.WithDNSResolverWithTTL(lookup)}
 			cacheSize = vh.Atoi(f[1])
 			if cacheSize > 0 {
@@ -474,9 +616,157 @@ func exec(c vh.Case, o *vh.Out) {
 			}
 			if err == nil {
 				tr.val[k], tr.byNS[k] = f[2], true
+				delete(tr.concLoser, k)
 				o.Nontrivial()
 			}
 			o.Emit("%s %s", res, seqs(k))
+		case "cpublish":
+			// two publishes for one key in flight at once; see rvDS. mode seq: A is started first and B's
+			// routing put is held until A returned (a serialising publisher = publish A; publish B);
+			// mode late: A's routing put (and so its cache update) is held until B returned.
+			k := vh.Atoi(f[1])
+			mode := f[8]
+			type req struct {
+				tok      string
+				val      path.Path
+				opts     []namesys.PublishOption
+				explicit *uint64
+				err      error
+			}
+			mk := func(p, ttl, seq string) *req {
+				r := &req{tok: p, val: mustPath(p)}
+				if ttl != "-" {
+					r.opts = append(r.opts, namesys.PublishWithTTL(mins(ttl)))
+				}
+				if seq != "-" {
+					s, err := strconv.ParseUint(seq, 10, 64)
+					if err != nil {
+						panic(err)
+					}
+					r.explicit = &s
+					r.opts = append(r.opts, namesys.PublishWithSequence(s))
+				}
+				return r
+			}
+			rs := map[string]*req{"A": mk(f[2], f[3], f[4]), "B": mk(f[5], f[6], f[7])}
+			var cur *ipns.Record
+			if v, err := dstore.Datastore.Get(ctx, namesys.IpnsDsKey(names[k])); err == nil {
+				cur, _ = ipns.UnmarshalRecord(v)
+			} else if v, err := store.GetValue(ctx, string(names[k].RoutingKey())); err == nil {
+				cur, _ = ipns.UnmarshalRecord(v)
+			}
+			dstore.arm()
+			doneA, doneB := make(chan struct{}), make(chan struct{})
+			store.mu.Lock()
+			if mode == "late" {
+				store.hold = map[string]chan struct{}{"A": doneB}
+			} else {
+				store.hold = map[string]chan struct{}{"B": doneA}
+			}
+			store.mu.Unlock()
+			run := func(w string, done chan struct{}) {
+				defer close(done)
+				rs[w].err = ns.Publish(context.WithValue(ctx, whoKey{}, w), keys[k], rs[w].val, rs[w].opts...)
+			}
+			go run("A", doneA)
+			select {
+			case <-dstore.aArrived:
+			case <-doneA:
+			}
+			go run("B", doneB)
+			<-doneA
+			<-doneB
+			dstore.disarm()
+			store.mu.Lock()
+			store.hold = nil
+			store.mu.Unlock()
+			cls := func(err error) string {
+				switch {
+				case err == nil:
+					return "ok"
+				case errors.Is(err, namesys.ErrInvalidSequence):
+					return "badseq"
+				case errors.Is(err, errPut):
+					return "puterr"
+				}
+				return "err:" + strings.ReplaceAll(err.Error(), " ", "_")
+			}
+			// ---- monitor: the property's sequence clauses over the history of records actually written
+			// (datastore write order), starting from the record current before the two publishes
+			type st struct {
+				seq uint64
+				val string
+				ok  bool
+			}
+			prev := st{}
+			if cur != nil {
+				prev.seq, _ = cur.Sequence()
+				if v, err := cur.Value(); err == nil {
+					prev.val = v.String()
+				}
+				prev.ok = true
+			}
+			states := []st{prev}
+			for _, w := range dstore.log {
+				rec, err := ipns.UnmarshalRecord(w.raw)
+				if err != nil {
+					continue
+				}
+				sq, _ := rec.Sequence()
+				v, _ := rec.Value()
+				if prev.ok {
+					if sq < prev.seq {
+						o.Fail("seq-decreased", "key %d: concurrent publish %s wrote sequence %d over %d", k, w.who, sq, prev.seq)
+					}
+					if v.String() != prev.val && sq <= prev.seq {
+						o.Fail("seq-not-increased", "key %d: concurrent publish %s changed the value (%s) with sequence %d over %d", k, w.who, rs[w.who].tok, sq, prev.seq)
+					}
+					if e := rs[w.who].explicit; e != nil && *e <= prev.seq {
+						o.Fail("stale-seq-accepted", "key %d: concurrent publish %s: explicit sequence %d accepted over %d", k, w.who, *e, prev.seq)
+					}
+				}
+				prev = st{sq, v.String(), true}
+				states = append(states, prev)
+			}
+			// a rejection must be justified at some point of that history
+			for _, w := range []string{"A", "B"} {
+				if !errors.Is(rs[w].err, namesys.ErrInvalidSequence) {
+					continue
+				}
+				just := false
+				for _, s := range states {
+					e := rs[w].explicit
+					switch {
+					case e != nil && s.ok && *e <= s.seq, e != nil && !s.ok && *e == 0:
+						just = true
+					case e == nil && s.ok && s.seq == math.MaxUint64 && s.val != rs[w].val.String():
+						just = true
+					}
+				}
+				if !just {
+					o.Fail("valid-seq-rejected", "key %d: concurrent publish %s rejected without reason", k, w)
+				}
+			}
+			// what the name system now holds as last published (highest sequence) is "the published value"
+			if len(dstore.log) > 0 {
+				last := dstore.log[len(dstore.log)-1]
+				if rs[last.who].err == nil {
+					tr.val[k], tr.byNS[k] = rs[last.who].tok, true
+					other := "A"
+					if last.who == "A" {
+						other = "B"
+					}
+					if rs[other].err == nil && rs[other].tok != rs[last.who].tok {
+						tr.concLoser[k] = rs[other].tok
+					}
+				} else {
+					tr.byNS[k] = false
+				}
+				o.Nontrivial()
+			}
+			o.Kind("cpublish-" + mode)
+			o.Kind("cpublish-" + cls(rs["A"].err) + "-" + cls(rs["B"].err))
+			o.Emit("%s %s %s", cls(rs["A"].err), cls(rs["B"].err), seqs(k))
 		case "put":
 			k := vh.Atoi(f[1])
 			seq, _ := strconv.ParseUint(f[4], 10, 64)
@@ -487,6 +777,7 @@ func exec(c vh.Case, o *vh.Out) {
 			raw, _ := ipns.MarshalRecord(rec)
 			store.m[string(names[k].RoutingKey())] = raw
 			tr.val[k], tr.byNS[k] = f[2], false
+			delete(tr.concLoser, k)
 			tr.external = true
 			o.Kind("external-put")
 			o.Emit("ok %s", seqs(k))
@@ -560,7 +851,9 @@ func exec(c vh.Case, o *vh.Out) {
 				k := vh.Atoi(strings.Split(root[1:], ".")[0])
 				if tr.byNS[k] {
 					got := tokPath(res.Path)
-					if got != canonTok(tr.val[k]) {
+					if got != canonTok(tr.val[k]) && got == tr.concLoser[k] {
+						o.Fail("concurrent-publish-cache-loser", "resolve %s = %s: the value of the concurrent publish that was serialised FIRST; the record held as last published says %s", f[1], got, tr.val[k])
+					} else if got != canonTok(tr.val[k]) {
 						o.Fail("stale-after-publish", "resolve %s = %s (%v) but %s was published", f[1], got, err, tr.val[k])
 					}
 				}
@@ -642,7 +935,11 @@ func (tr *truth) walk(tok string, depth uint, store *memStore) string {
 				return ""
 			}
 			t, _ := rec.TTL()
-			next, ttl = tr.val[k], max(0, t)
+			v, err := rec.Value()
+			if err != nil {
+				return ""
+			}
+			next, ttl = tokPath(v), max(0, t) // what the routing store holds, not what the harness thinks was written last
 			if tr.cap > 0 && ttl > tr.cap {
 				ttl = tr.cap
 			}
